@@ -1,11 +1,12 @@
 /-
   Completeness of the engine model, part 4: `checkIsAllowed` (`.isAllowed`) — the rewrite of the
-  relation, the direct lookup and the subject-set expansion (`expandRun`), for
-  `strict = false` and no storage faults.
+  relation, the direct lookup and the subject-set expansion (`expandRun`); any fault oracle;
+  strict mode for conforming stores.
 
   Helper lemmas only; the property theorems live in Keto/Props/C01complete.lean.
 -/
 import Keto.Proofs.EngineCompleteLoops
+import Keto.Proofs.EngineCompleteStrict
 
 namespace Keto
 
@@ -80,7 +81,7 @@ def PExpand (E : Env) (t : Tuple) (V : List VKey) : Prop :=
   ∃ n o r, (⟨t.ns, t.obj, t.rel, .set n o r⟩ : Tuple) ∈ E.T ∧ (n, o, r) ∉ V ∧
     ∃ k, MemN E.cfg E.T V k ⟨n, o, r, t.sub⟩
 
-theorem expandRun_ok (E : Env) (hf : ∀ k, E.fails k = false) (rec : Tuple → Ctx → World → Res × World)
+theorem expandRun_ok (E : Env) (rec : Tuple → Ctx → World → Res × World)
     (t : Tuple) (ctx : Ctx) (w : World) (hv : Valid ctx w)
     (hrec : ∀ n o r, (⟨t.ns, t.obj, t.rel, .set n o r⟩ : Tuple) ∈ E.T → (⟨n, o, r, t.sub⟩ : Tuple) ∉ E.T →
       ∀ c w, Valid c w →
@@ -89,9 +90,9 @@ theorem expandRun_ok (E : Env) (hf : ∀ k, E.fails k = false) (rec : Tuple → 
   obtain ⟨⟨r0, hr0⟩, hvc, hfr0, hlim0, hvis0, _⟩ := initVisited_spec ctx w hv
   unfold expandRun
   extract_lets cw fw sets over w2 sets' gw
-  have hcall : fw.1 = false := World.call_ok E hf _
-  simp only [hcall, Bool.false_eq_true, if_false]
   have hfrw : Frame ctx.vref w fw.2 := (hfr0.trans (Frame.ofCall none E cw.2)).weaken
+  split
+  · exact RunOK.of_decisive hfrw rfl
   split
   · exact RunOK.of_decisive hfrw rfl
   · next hany =>
@@ -148,7 +149,7 @@ theorem expandRun_ok (E : Env) (hf : ∀ k, E.fails k = false) (rec : Tuple → 
 
 /-! ### the direct lookup -/
 
-theorem directStep_ok (E : Env) (hf : ∀ k, E.fails k = false) (t : Tuple) (d : Int) (g : Option Res) (w : World)
+theorem directStep_ok (E : Env) (t : Tuple) (d : Int) (g : Option Res) (w : World)
     (o : Option Nat) :
     Frame o w (directStep E t d g w).2 ∧ (directStep E t d g w).2.heap = w.heap ∧
     (GDec g → GDec (directStep E t d g w).1) ∧
@@ -159,9 +160,9 @@ theorem directStep_ok (E : Env) (hf : ∀ k, E.fails k = false) (t : Tuple) (d :
   · split
     · exact ⟨Frame.refl _ _, rfl, id, fun h => by cases h⟩
     · extract_lets fw
-      have hcall : fw.1 = false := World.call_ok E hf _
-      simp only [hcall, Bool.false_eq_true, if_false]
-      refine ⟨Frame.ofCall _ E w, rfl, fun _ => GDec.none.gAdd _, fun h _ => ⟨trivial, ?_⟩⟩
+      split
+      · exact ⟨Frame.ofCall _ E w, rfl, fun _ x hx => by cases hx; rfl, fun h => by cases h⟩
+      refine ⟨Frame.ofCall _ E w, rfl, fun _ => GDec.none.gAdd _, fun h _ => ⟨rfl, ?_⟩⟩
       intro hm
       have hc : E.T.contains t = true := by simpa using hm
       rw [hc] at h
@@ -169,7 +170,7 @@ theorem directStep_ok (E : Env) (hf : ∀ k, E.fails k = false) (t : Tuple) (d :
 
 /-! ### `checkIsAllowed` -/
 
-theorem build_isAllowed_ok (E : Env) (hs : E.strict = false) (hf : ∀ k, E.fails k = false)
+theorem build_isAllowed_ok (E : Env) (hs : E.strict = true → conforms E.cfg E.T = true)
     (n : Nat) (t : Tuple) (d : Int) (skip : Bool) (ctx : Ctx) (w : World) (hv : Valid ctx w)
     (hpre : skip = true → t ∉ E.T)
     (hrw : ∀ R rw, astRelationFor E.cfg t.ns t.rel = .rel R → R.rewrite = some rw →
@@ -202,8 +203,20 @@ theorem build_isAllowed_ok (E : Env) (hs : E.strict = false) (hf : ∀ k, E.fail
         simp only [rw?, rel?, hR, Option.bind_some] at h
         rw [hrw'] at h
         cases h
-      have hstrict : strict = false := hs
-      have hcan : canSS = true := by simp only [canSS, hstrict]; rfl
+      have hstrict : strict = E.strict := rfl
+      have hcan : canSS = false → E.strict = true ∧
+          ∃ R, astRelationFor E.cfg t.ns t.rel = .rel R ∧ containsSubjectSetExpand R = false := by
+        intro h
+        cases hst : E.strict with
+        | false => simp [canSS, hstrict, hst] at h
+        | true =>
+          refine ⟨rfl, ?_⟩
+          cases hlk2 : astRelationFor E.cfg t.ns t.rel with
+          | rel R =>
+            simp only [canSS, rel?, hstrict, hlk2, hst] at h
+            exact ⟨R, rfl, by simpa using h⟩
+          | none => simp [canSS, rel?, hstrict, hlk2, hst] at h
+          | bad => simp [canSS, rel?, hstrict, hlk2, hst] at h
       clear_value rw? rel? strict canSS
       have h1 : Frame ctx.vref w gw1.2 ∧ Valid ctx gw1.2 ∧ GDec gw1.1 ∧
           (gw1.1 = none → gw1.2.limitHits = 0 →
@@ -231,15 +244,28 @@ theorem build_isAllowed_ok (E : Env) (hs : E.strict = false) (hf : ∀ k, E.fail
       -- the direct lookup
       have h2 : Frame ctx.vref gw1.2 gw2.2 ∧ gw2.2.heap = gw1.2.heap ∧ GDec gw2.1 ∧
           (gw2.1 = none → gw2.2.limitHits = 0 → gw1.1 = none ∧ t ∉ E.T) := by
-        simp only [gw2, hstrict]
-        cases skip with
-        | true =>
-          simp only [Bool.not_true, Bool.and_false, Bool.false_eq_true, if_false]
-          exact ⟨Frame.refl _ _, trivial, hg1, fun h _ => ⟨h, hpre rfl⟩⟩
-        | false =>
-          simp only [Bool.not_false, Bool.true_or, Bool.and_self, if_true]
-          have := directStep_ok E hf t (d - 1) gw1.1 gw1.2 ctx.vref
+        simp only [gw2]
+        split
+        · have := directStep_ok E t (d - 1) gw1.1 gw1.2 ctx.vref
           exact ⟨this.1, this.2.1, this.2.2.1 hg1, this.2.2.2⟩
+        · next hcond =>
+          refine ⟨Frame.refl _ _, rfl, hg1, fun h _ => ⟨h, ?_⟩⟩
+          cases hsk : skip with
+          | true => exact hpre hsk
+          | false =>
+            rw [hsk, hstrict] at hcond
+            cases hst : E.strict with
+            | false => rw [hst] at hcond; simp at hcond
+            | true =>
+              rw [hst] at hcond
+              cases hq : rw? with
+              | none => rw [hq] at hcond; simp at hcond
+              | some rw' =>
+                obtain ⟨R, hR, hRrw⟩ := hrwq rw' hq
+                intro hm
+                have := conforms_no_rewrite (hs hst) hm hR
+                rw [this] at hRrw
+                cases hRrw
       obtain ⟨hfr2, hheap2, hg2, hneg2⟩ := h2
       have hv2 : Valid ctx gw2.2 := hv1.frame hfr2
       -- the expansion
@@ -247,14 +273,25 @@ theorem build_isAllowed_ok (E : Env) (hs : E.strict = false) (hf : ∀ k, E.fail
           (gw3.1 = none → gw3.2.limitHits = 0 →
             gw2.1 = none ∧ Ext E.cfg E.T t.sub (vis ctx gw2.2) (vis ctx gw3.2) ∧
             ¬ PExpand E t (vis ctx gw2.2)) := by
-        simp only [gw3, hcan, if_true]
+        simp only [gw3]
+        cases hcs : canSS with
+        | false =>
+          simp only [Bool.false_eq_true, if_false]
+          obtain ⟨hst, R, hR, hss⟩ := hcan hcs
+          refine ⟨Frame.refl _ _, hg2, fun h _ => ⟨h, Ext.refl _ _, ?_⟩⟩
+          rintro ⟨n', o, r, hT, _, k, hm⟩
+          have hr : r = "" := conforms_set_rel (hs hst) hT hR hss
+          subst hr
+          exact conforms_empty_rel (hs hst) _ _ _ _ _ hm
+        | true =>
+        simp only [if_true]
         split
         · exact ⟨Frame.ofLim _ _, hg2, fun _ h => by simp at h⟩
         · split
           · next x hx =>
             exact ⟨Frame.refl _ _, by rw [← hx]; exact hg2, fun h => by cases h⟩
           · next hx =>
-            have hrun := expandRun_ok E hf
+            have hrun := expandRun_ok E
               (fun t' c w' => runB (build E n (.isAllowed t' (d - 1) true) c w') c) t ctx gw2.2 hv2
               (fun n' o r hT hnT c w' hv' => (hexp n' o r hT hnT c w' hv').runB)
             refine ⟨hrun.frame, GDec.none.gAdd _, fun hnone hlim => ?_⟩
